@@ -938,11 +938,12 @@ def err_source(ret):
     return None
 
 
-def summarize(F, fn, max_visits=None, hide_calls=(), _nested=False, inline=inline_local, renames=None):
+def summarize(F, fn, max_visits=None, hide_calls=(), _nested=False, inline=inline_local, renames=None, root_subst=None):
     _FACTS[0] = F
     if max_visits is None:
         max_visits = 20 if fn.name == "finalize" and "CrcModifier" in (fn.impl_self or "") else 3
     eng = sym.Engine(F, inline=inline, max_visits=max_visits, max_depth=10, models=sym.SLICE_MODELS)
+    eng.root_subst = root_subst
     paths = [p for p in eng.run(fn) if p.status != "infeasible"]
     outcomes = {}
     vtab = {}
@@ -1183,11 +1184,11 @@ def fmt(s):
     return "\n".join(out)
 
 
-def check(run, rule, fn, want, F, what="", key=None, renames=None, hyps=None, inline=None, per_outcome=False):
+def check(run, rule, fn, want, F, what="", key=None, renames=None, hyps=None, inline=None, per_outcome=False, root_subst=None):
     import summ
     k = key or summ.fn_key(fn)
     try:
-        got = summarize(F, fn, renames=renames, inline=inline or inline_local)
+        got = summarize(F, fn, renames=renames, inline=inline or inline_local, root_subst=root_subst)
     except Exception as ex:
         run.bad(rule, k, "%scould not be summarised: %s: %s" % ((what + ": ") if what else "", type(ex).__name__, ex), fn.where())
         return False
